@@ -364,6 +364,17 @@ def _lift_cells(ctx, spec):
                                                                                    "BIP340 lift_x requires even Y" if xonly else "tag says %s" % ("odd" if want_odd else "even")))
         else:
             problems.append("%s: y is neither the root nor its negation" % who)
+    if not xonly:
+        # x = 0 is not the x coordinate of any curve point (7 is not a square): a compressed encoding of it must not decode to infinity
+        for tag in (2, 3):
+            ctx.count("cells")
+            ev = Evaluator(ctx.repo, method_hooks={("S256Field", "sqrt"): lambda o, *a, **k: Obj("pecc", "S256Field", {"num": 4, "prime": P}), ("S256Point", "__init__"): init})
+            try:
+                r = ev.call(spec, [bytes([tag]) + bytes(32)], self_obj=ClassRef("pecc", "S256Point"))
+            except Raised:
+                continue
+            if isinstance(r, Obj) and r.attrs.get("x") is None:
+                problems.append("tag %02x followed by 32 zero bytes decodes to the point at infinity: x = 0 is on no curve point, the encoding has to be refused" % tag)
     return sorted(set(problems)), sorted(set(facts))
 
 
@@ -909,7 +920,7 @@ def c03_14(ctx):
         if x is not None:
             raise Undecided("a finite point is constructed")
         o.attrs.update({"k": 0, "x": None, "y": None, "a": a, "b": b})
-    scalars = list(range(0, 1101)) + [v for e in range(11, 65) for v in ((1 << e) - 1, 1 << e, (1 << e) + 1)]
+    scalars = list(range(0, 1101)) + [v for e in list(range(11, 65)) + [127, 128, 255, 256, 257, 300, 521] for v in ((1 << e) - 1, 1 << e, (1 << e) + 1)]
     bad = None
     for c in scalars:
         ev = Evaluator(ctx.repo, method_hooks={("Point", "__add__"): add, ("Point", "__init__"): init})
@@ -927,7 +938,7 @@ def c03_14(ctx):
     if bad:
         return [ctx.bad(spec, "%d * P %s (expected %s): the group law a(bG) = (ab)G fails whenever the reduced scalar is %d (e.g. n*P)" % (
             bad[0], bad[1], "the point at infinity" if bad[0] == 0 else "%d*P" % bad[0], bad[0]), fn, mod, key="double-and-add")]
-    return [ctx.ok(spec, "c*P is computed for all %d scalars evaluated (0..1100 and 2^e-1, 2^e, 2^e+1 for e = 11..64), 0*P = infinity" % len(scalars), fn, mod, key="double-and-add")]
+    return [ctx.ok(spec, "c*P is computed for all %d scalars evaluated (0..1100 and 2^e-1, 2^e, 2^e+1 for e = 11..64, 127, 128, 255, 256, 257, 300, 521: the generic class takes any integer), 0*P = infinity" % len(scalars), fn, mod, key="double-and-add")]
 
 
 def _ref_add(P1, P2, p, a=0):
@@ -1008,7 +1019,15 @@ def c03_18(ctx):
     return shared_obligations(ctx, ["pecc"], "the result would depend on something other than the arguments and the object's current state")
 
 
+def c03_19(ctx):
+    """every secret in [1, n-1] is a private key (and nothing else): the key range the public-key encodings are quantified over
+    (shared with C01.6)"""
+    from rules.C01 import c01_6
+    return c01_6(ctx)
+
+
 OBLIGATIONS = [
+    ("C03.19", "RANGE accept-set (shared C01.6)", c03_19),
     ("C03.18", "SHARED", c03_18),
     ("C03.17", "SET-ORDER", c03_17),
     ("C03.1", "RANGE accept-set", c03_1),
